@@ -276,6 +276,42 @@ def build() -> Check:
             bad.append(("with no items execute() blocks on the completion event although no task exists that could set it", t))
     ck.floor("empty_input_traces", len(trs), 1)
     ck.ob("R4.empty-input-terminates", fn_construct(ex), not bad, bad[0][0] if bad else f"{len(trs)} paths")
+
+    # R1 on replay: the rebuilt batch has exactly one item per input, in input order, whatever the children's recorded status
+    from sa.protocol import ABSENT
+    f_replay, f_item = cex.methods.get("replay"), cex.methods.get("_execute_item_in_child_context")
+    if not (f_replay and f_item):
+        raise AnalysisError("ConcurrentExecutor.replay/_execute_item_in_child_context not found")
+    n_rp = 0
+    for st in (ABSENT, *[s_ for s_ in pm.statuses if s_ != ABSENT]):
+        def h_item(it, fn, sv, a, k, n):
+            return Sym("item_result")
+
+        def self_factory_r(it, state):
+            o = Obj(cex, label="cexec")
+            exs = []
+            for i in range(2):
+                e = Obj(exe_cls, label=f"exe{i}")
+                e.fields.update(index=Sym(f"exe{i}.index", TypeRef(prim="int")), func=Sym(f"exe{i}.func"))
+                exs.append(e)
+            o.fields.update(executables=SeqVal("list", exs), completion_config=Sym("cc"))
+            return o
+
+        def kw_r(it, state):
+            return {"execution_state": state, "executor_context": Sym("executor_context", TypeRef(classes=(prog.cls("context", "DurableContext").fq,)))}
+
+        trs = pm.run_function(f_replay, self_factory_r, kw_r, cell=("replay2", st), status=st, optype="CONTEXT", extra_hooks={f_item.fq: h_item})
+        badr = []
+        for t in trs:
+            n_rp += 1
+            v = t.value if t.outcome == "return" else None
+            items = v.fields.get("all") if isinstance(v, Obj) else None
+            idx = [bi.fields.get("index", NONE).key() if isinstance(bi, Obj) else "?" for bi in items.items] if isinstance(items, SeqVal) else None
+            if idx != ["exe0.index", "exe1.index"]:
+                badr.append((f"two inputs whose children are recorded as {st}: the replayed batch has items {idx if idx is not None else (v.key() if v else t.exc_class())} "
+                             "(expected one per input, in input order)", t))
+        ck.ob("R1.replay-item-per-input", fn_construct(f_replay), not badr and trs, (badr[0][0] + ": " + trace_sig(badr[0][1])[-300:]) if badr else "", cell=st)
+    ck.floor("replay_paths", n_rp, 7)
     return ck
 
 
